@@ -8,6 +8,7 @@ import (
 	_ "time/tzdata"
 
 	"go.lstv.dev/util/date"
+	"verif/firstuse"
 	"verif/mc"
 	"verif/oracle"
 )
@@ -164,6 +165,7 @@ func probeSeq(a seqArg) (string, string) {
 func main() {
 	mc.Main("C15", "all (from, to) pairs over a date window x 4 nil/non-nil shapes, each probed with every date of the window, against day ordinals; "+
 		"non-trivial = both bounds given and they differ in month or year", func(r *mc.Run) {
+		firstuse.Phase(r, map[string][]string{"date": {"filter"}})
 		p := mc.NewProbe(r, "filter", setup, probe)
 		r.Reset = func() { time.Local = defaultLocal }
 		r.Assume("reference: ordinal comparison; error iff both bounds given and from > to")
